@@ -41,6 +41,12 @@ func main() {
 			usage()
 		}
 		os.Exit(rules.Calib(*repo, pos[0]))
+	case "gendump":
+		f := ""
+		if len(pos) > 0 {
+			f = pos[0]
+		}
+		os.Exit(rules.GenDump(*repo, f, len(pos) > 1))
 	case "replay":
 		if len(pos) != 1 {
 			usage()
